@@ -253,9 +253,14 @@ mod inner {
                 ReactiveNodeState::Clean => false,
                 ReactiveNodeState::Check => {
                     let sources = self.read().or_poisoned().sources.clone();
-                    sources
+                    let changed = sources
                         .into_iter()
-                        .any(|source| source.update_if_necessary())
+                        .any(|source| source.update_if_necessary());
+                    // a source that recomputed to a new value has marked this effect dirty,
+                    // which has already run it (and left it `Clean`): do not run it again
+                    changed
+                        && self.read().or_poisoned().state
+                            != ReactiveNodeState::Clean
                 }
                 ReactiveNodeState::Dirty => true,
             };
